@@ -272,7 +272,7 @@ def execute(scn):
             if k in ("create", "validates"):
                 # version names are free text; some collide after title-casing or look like a draft's name
                 version = ["dsim c20 v%d" % step, "Dsim C20 V%d" % max(0, step - 1), "dsim  c20 v%d" % step,
-                           "draft4 dsim %d" % step][op["v"] % 4]
+                           ["draft 4", "Draft 7", "draft 3", "draft 6"][step % 4] + " " * (step // 4)][op["v"] % 4]
                 if k == "create":
                     cls, uid = make_class(op, step, version)
                 else:
